@@ -5,6 +5,7 @@ package interp
 
 import (
 	"fmt"
+	"go/constant"
 	"go/types"
 	"os"
 	"path/filepath"
@@ -248,4 +249,35 @@ var zeroOKGlobals = map[string]bool{
 
 func (e *Env) zeroOK(g *ssa.Global) bool {
 	return zeroOKGlobals[g.Name()] || zeroOKGlobals[g.String()]
+}
+
+
+// constErrorInit recognises `var g = errors.New("const")` in a package initialiser.
+func (e *Env) constErrorInit(g *ssa.Global) (string, bool) {
+	init := g.Pkg.Func("init")
+	if init == nil {
+		return "", false
+	}
+	for _, b := range init.Blocks {
+		for _, in := range b.Instrs {
+			st, ok := in.(*ssa.Store)
+			if !ok || st.Addr != ssa.Value(g) {
+				continue
+			}
+			call, ok := st.Val.(*ssa.Call)
+			if !ok {
+				return "", false
+			}
+			fn := call.Call.StaticCallee()
+			if fn == nil || (fn.String() != "errors.New" && fn.String() != "golang.org/x/xerrors.New") || len(call.Call.Args) != 1 {
+				return "", false
+			}
+			c, ok := call.Call.Args[0].(*ssa.Const)
+			if !ok || c.Value == nil {
+				return "", false
+			}
+			return constant.StringVal(c.Value), true
+		}
+	}
+	return "", false
 }
